@@ -828,7 +828,8 @@ class Evaluator:
             lenv = env.with_()
             lenv.loops[e["id"]] = (kbreak, kcont)
             return self.ev(e["body"], st_body, lenv, lambda v, s: kcont(s))
-        return self.do_loop((e.get("src", "loop"),), e["body"], st, env, k, body_fn, loc)
+        # `while c {}`, `while let p = e {}` and `loop { if !c { break } }` are the same loop: no source label in the tree
+        return self.do_loop(("loop",), e["body"], st, env, k, body_fn, loc)
 
     def ev_let_cond(self, e, st, env, k):
         # bare `let` condition outside if (let chains): treat as opaque
